@@ -1,4 +1,176 @@
-/- oracle_c12 — placeholder driver (replaced when the C12 model is added). -/
+/-
+  oracle_c12 — line-protocol driver for Model.Mempool (client/txpool).
+  Txids are 64 hex chars in internal byte order; BIDX / UIdx are 16 hex chars (the %016x of the LE uint64).
+    cfg <allowMem01> <notFullRBF01> <maxTxWeight> <ringCap>                         -> ok
+    tx <id> <nws> <size> <scriptok01> <nin> {<prev> <vout> <seq>}* <nout> {<value>}* -> ok   (register)
+    coin <id> <vout> <value> <height> <cb01>                                        -> ok   (confirmed coin)
+    net <id> <trusted01> <minfee>      -> <code>      ParseTxNet + HandleNetTx (1000+why when not wanted)
+    local <id> <minfee>                -> <code>      usif.LoadRawTx + SubmitLocalTx
+    block <height> <minfee> <n> {<id>}*-> ok          the chain connected this block (coinbase left out)
+    undo <minfee>                      -> ok | none   the chain disconnected its last block
+    tip <height>                       -> ok          common.Last.Block moved
+    expire <n> {<bidx>}*               -> ok
+    evict <n> {<bidx>}*                -> ok | bad-evict
+    flag <01>                          -> ok          BlockCommitInProgress
+    resort                             -> ok          buildSortedList
+    reload                             -> ok          MempoolSave + MempoolLoad
+    ringorder <n> {<bidx>}*            -> ok | bad    adopt the observed order of the reject ring (must be a permutation)
+    setorder <n> {<bidx>}*             -> ok | bad    adopt the observed sorted list (must be a parents-first permutation)
+    dump                               -> P … | S … | R … | W … | X … | L … | T … | E …
+-/
+import GocoinV.Model.Mempool
 import GocoinV.Base.Proto
-open GocoinV
-def main : IO Unit := Proto.serve () (fun _ _ => ((), "bad-op"))
+open GocoinV GocoinV.Mempool
+
+def K := realKeys
+
+structure OSt where
+  s : State := {}
+  txs : AList Nat Tx := []
+
+def leNat (bs : List UInt8) : Nat := bs.foldr (fun b acc => acc * 256 + b.toNat) 0
+
+def parseId (h : String) : Option Nat :=
+  match Hex.decode h with
+  | some bs => if bs.length = 32 then some (leNat bs) else none
+  | none => none
+
+def parseKey (h : String) : Option Nat :=
+  if h.length ≠ 16 then none else
+  h.toList.foldlM (fun acc c => (Hex.unnibble c).map (acc * 16 + ·)) 0
+
+def hex16 (n : Nat) : String :=
+  String.ofList ((List.range 16).reverse.map fun i => Hex.nibble ((n / 16 ^ i) % 16))
+
+def b01 (b : Bool) : String := if b then "1" else "0"
+
+def sortNat (l : List Nat) : List Nat := (l.toArray.qsort (· < ·)).toList
+
+def sortKV {α : Type} (l : List (Nat × α)) : List (Nat × α) := (l.toArray.qsort (fun a b => a.1 < b.1)).toList
+
+def memStr (m : List Bool) : String := if m.isEmpty then "-" else String.ofList (m.map fun b => if b then '1' else '0')
+
+def dump (s : State) : String :=
+  let p := (sortKV s.pool).map fun (b, t) =>
+    s!"{hex16 b}:{t.fee}:{t.volume}:{memStr t.mem}:{t.memCnt}:{b01 t.final}:{b01 t.loc}"
+  let sp := (sortKV s.spent).map fun (u, b) => s!"{hex16 u}>{hex16 b}"
+  let r := s.ring.filterMap fun slot => match slot with
+    | none => none
+    | some b => match s.rej.get? b with
+      | none => some s!"{hex16 b}:?"
+      | some r => some s!"{hex16 b}:{r.reason}:{b01 r.tx.isSome}:{match r.waiting4 with | some w => hex16 (K.bidx w) | none => "-"}"
+  let w := (sortKV s.waiting).map fun (k, (_, ids)) => s!"{hex16 k}={",".intercalate (ids.map hex16)}"
+  let x := (sortKV s.rejSpent).map fun (k, ids) => s!"{hex16 k}={",".intercalate (ids.map hex16)}"
+  let l := if s.sortDirty then "dirty" else " ".intercalate (s.sorted.map hex16)
+  s!"P {" ".intercalate p} | S {" ".intercalate sp} | R {" ".intercalate r} | W {" ".intercalate w} | X {" ".intercalate x} | L {l} | T {s.weightTotal} {s.rej.length} | E {b01 s.panicked}"
+
+/-- parse n ids/keys from the token list -/
+def takeN {α : Type} (f : String → Option α) : Nat → List String → Option (List α × List String)
+  | 0, r => some ([], r)
+  | n + 1, t :: r => do
+    let x ← f t
+    let (xs, rest) ← takeN f n r
+    pure (x :: xs, rest)
+  | _ + 1, [] => none
+
+def parseIns : Nat → List String → Option (List TxIn × List String)
+  | 0, r => some ([], r)
+  | n + 1, p :: v :: q :: r => do
+    let prev ← parseId p
+    let vout ← v.toNat?
+    let seq ← q.toNat?
+    let (xs, rest) ← parseIns n r
+    pure (⟨prev, vout, seq⟩ :: xs, rest)
+  | _, _ => none
+
+def isPerm (a b : List Nat) : Bool := sortNat a == sortNat b
+
+/-- every flagged parent that is in the list sits before its child -/
+def parentsFirst (s : State) (l : List Nat) : Bool :=
+  let rec go (seen : List Nat) : List Nat → Bool
+    | [] => true
+    | b :: r =>
+      (match s.pool.get? b with
+       | none => false
+       | some t => (memParents K t).all fun p => seen.contains p || !l.contains p) && go (b :: seen) r
+  go [] l
+
+def step (o : OSt) (toks : List String) : OSt × String :=
+  let bad := (o, "bad-op")
+  let s := o.s
+  match toks with
+  | ["cfg", am, nf, mw, rc] =>
+    match mw.toNat?, rc.toNat? with
+    | some mw, some rc => ({ o with s := { s with cfg := { allowMem := am == "1", notFullRBF := nf == "1", maxTxWeight := mw, ringCap := rc } } }, "ok")
+    | _, _ => bad
+  | "tx" :: id :: nws :: size :: sok :: nin :: rest =>
+    match parseId id, nws.toNat?, size.toNat?, nin.toNat? with
+    | some id, some nws, some size, some nin =>
+      match parseIns nin rest with
+      | some (ins, nout :: rest) =>
+        match nout.toNat? with
+        | some nout =>
+          match takeN String.toNat? nout rest with
+          | some (outs, []) =>
+            ({ o with txs := o.txs.set id { id, ins, outs, nws, size, scriptOk := sok == "1" } }, "ok")
+          | _ => bad
+        | none => bad
+      | _ => bad
+    | _, _, _, _ => bad
+  | ["coin", id, v, val, h, cb] =>
+    match parseId id, v.toNat?, val.toNat?, h.toNat? with
+    | some id, some v, some val, some h => ({ o with s := { s with utxo := s.utxo.set (id, v) ⟨val, h, cb == "1"⟩ } }, "ok")
+    | _, _, _, _ => bad
+  | ["net", id, tr, mf] =>
+    match (parseId id).bind o.txs.get?, mf.toNat? with
+    | some t, some mf => let (c, s) := submitNet K mf s t (tr == "1"); ({ o with s }, toString c)
+    | _, _ => bad
+  | ["local", id, mf] =>
+    match (parseId id).bind o.txs.get?, mf.toNat? with
+    | some t, some mf => let (c, s) := submitLocal K mf s t; ({ o with s }, toString c)
+    | _, _ => bad
+  | "block" :: h :: mf :: n :: rest =>
+    match h.toNat?, mf.toNat?, n.toNat? with
+    | some h, some mf, some n =>
+      match takeN (fun x => (parseId x).bind o.txs.get?) n rest with
+      | some (txs, []) => ({ o with s := Mempool.step K s (.block h txs mf) }, "ok")
+      | _ => bad
+    | _, _, _ => bad
+  | ["undo", mf] =>
+    match mf.toNat? with
+    | some mf => if s.undo.isEmpty then (o, "none") else ({ o with s := Mempool.step K s (.undo mf) }, "ok")
+    | none => bad
+  | ["tip", h] =>
+    match h.toNat? with
+    | some h => ({ o with s := Mempool.step K s (.tip h) }, "ok")
+    | none => bad
+  | "expire" :: n :: rest =>
+    match n.toNat?.bind (fun n => takeN parseKey n rest) with
+    | some (ks, []) => ({ o with s := Mempool.step K s (.expire ks) }, "ok")
+    | _ => bad
+  | "evict" :: n :: rest =>
+    match n.toNat?.bind (fun n => takeN parseKey n rest) with
+    | some (ks, []) =>
+      match evict K s ks with
+      | some s => ({ o with s }, "ok")
+      | none => (o, "bad-evict")
+    | _ => bad
+  | ["flag", y] => ({ o with s := Mempool.step K s (.commitFlag (y == "1")) }, "ok")
+  | ["resort"] => ({ o with s := Mempool.step K s .resort }, "ok")
+  | ["reload"] => ({ o with s := Mempool.step K s .reload }, "ok")
+  | "ringorder" :: n :: rest =>
+    match n.toNat?.bind (fun n => takeN parseKey n rest) with
+    | some (ks, []) =>
+      let cur := s.ring.filterMap id
+      if isPerm cur ks then ({ o with s := { s with ring := ks.map some } }, "ok") else (o, "bad")
+    | _ => bad
+  | "setorder" :: n :: rest =>
+    match n.toNat?.bind (fun n => takeN parseKey n rest) with
+    | some (ks, []) =>
+      if !s.sortDirty && isPerm (s.pool.map (·.1)) ks && parentsFirst s ks then ({ o with s := { s with sorted := ks } }, "ok")
+      else (o, "bad")
+    | _ => bad
+  | ["dump"] => (o, dump s)
+  | _ => bad
+
+def main : IO Unit := Proto.serve ({} : OSt) step
